@@ -885,6 +885,13 @@ func ComparisonExpr(query *Query, current Map, expr *sqlparser.ComparisonExpr, o
 				return false, INVALID_TYPE.Extend(fmt.Sprintf("failed to build `IN` expression. expected an array but found %T", right))
 			}
 			for _, value := range rightArray {
+				if row, ok := value.(Map); ok {
+					// a row of a single-column subquery
+					for _, column := range row {
+						value = column
+						break
+					}
+				}
 				if v, ok := value.(*float64); ok {
 					value = *v
 				}
